@@ -5,7 +5,7 @@ from . import hist
 PROP = 'C12'
 LEVEL = 'exploration'
 WALL_CAP = {'quick': 300, 'thorough': 3000}
-RUNS = {'quick': 1500, 'thorough': 25000}
+RUNS = {'quick': 4000, 'thorough': 40000}
 LE_SAMPLES = ['in/Optimize_LE_to_SE', 'in/Optimize_Dynamic_LE_to_SE', 'in/Animated_LE', 'exp/Optimize_SE_to_LE', 'exp/Optimize_Dynamic_SE_to_LE']
 SE_SAMPLES = ['in/Optimize_SE_to_LE', 'in/Optimize_Dynamic_SE_to_LE', 'in/Skinned_SE', 'in/Skinned_Dynamic_SE', 'in/Static_SE', 'in/Furniture_Col_SE', 'in/MultiBound_SE',
               'in/OrderedNode_SE', 'in/RootNonZero', 'in/Skinned_NoNiSkinDataWeights', 'in/FixBSXFlags_AddExtEmit', 'in/FixShaderFlags_AddEnvMap',
